@@ -97,7 +97,9 @@ def build_harness(name, flavour="asan", extra_src=()):
                     break
         if need:
             c, l = _qt_flags()
-            san = [f for f in FLAVOURS[flavour].split()]
+            # (the harnesses are template-heavy glue: without optimisation and debug info they compile several times faster; sanitizer
+            #  reports are attributed by the library's frames, which keep their own flags)
+            san = [f for f in FLAVOURS[flavour].split() if f not in ("-O1", "-g")] + ["-O0"]
             cmd = ["g++", "-std=c++20", "-fPIC", "-MD", "-MF", dep, "-MT", "x"] + san + [
                 "-I" + os.path.join(VERIF, "harness"),
                 "-I" + os.path.join(REPO, "src/base"), "-I" + os.path.join(REPO, "src/client"),
